@@ -34,6 +34,38 @@ Proof. intros Hi. apply qsum_map_nonneg. intros r Hr. apply row_closs_nonneg; as
 Theorem f_contradiction_loss_nonneg : 0 <= f_contradiction_loss k reg s.
 Proof. unfold f_contradiction_loss. apply qsum_map_nonneg. intros i Hi. apply node_closs_nonneg; exact Hi. Qed.
 
+(* the uncertainty loss (coefficient 1): non-negative for every state -- also with alpha < 1, where bounds may cross inside
+   one classical region without being a contradiction; zero exactly when every formula without a contradictory row has
+   no row of positive width *)
+Lemma row_width_nonneg r : 0 <= row_width r.
+Proof. unfold row_width. qcases; lra. Qed.
+Lemma row_width_zero r : row_width r == 0 <-> hi (rcur r) <= lo (rcur r).
+Proof. unfold row_width. split; intros H; qcases; lra. Qed.
+Definition node_uloss (i : nat) : Q :=
+  if existsb (fun r => is_contra (falpha (getf k i)) (rcur r)) (ftab s i) then 0 else qsum (map row_width (ftab s i)).
+Lemma node_uloss_nonneg i : 0 <= node_uloss i.
+Proof.
+  unfold node_uloss. destruct (existsb _ (ftab s i)); [lra|].
+  apply qsum_map_nonneg. intros r _. apply row_width_nonneg.
+Qed.
+Theorem f_uncertainty_loss_nonneg : 0 <= f_uncertainty_loss k reg s.
+Proof. unfold f_uncertainty_loss. change (0 <= qsum (map node_uloss reg)). apply qsum_map_nonneg. intros i _. apply node_uloss_nonneg. Qed.
+Theorem f_uncertainty_loss_zero_iff :
+  f_uncertainty_loss k reg s == 0 <->
+  forall i, In i reg -> existsb (fun r => is_contra (falpha (getf k i)) (rcur r)) (ftab s i) = false ->
+            forall r, In r (ftab s i) -> hi (rcur r) <= lo (rcur r).
+Proof.
+  unfold f_uncertainty_loss. fold row_width. set (P := forall i, In i reg -> _).
+  change (qsum (map node_uloss reg) == 0 <-> P). subst P.
+  rewrite qsum_map_zero_iff by (intros i _; apply node_uloss_nonneg). split.
+  - intros H i Hi E r Hr. specialize (H i Hi). unfold node_uloss in H. rewrite E in H.
+    rewrite qsum_map_zero_iff in H by (intros r' _; apply row_width_nonneg).
+    apply row_width_zero. apply H. exact Hr.
+  - intros H i Hi. unfold node_uloss. destruct (existsb _ (ftab s i)) eqn:E; [reflexivity|].
+    rewrite qsum_map_zero_iff by (intros r' _; apply row_width_nonneg).
+    intros r Hr. apply row_width_zero. apply (H i Hi E r Hr).
+Qed.
+
 Theorem f_contradiction_loss_zero_iff :
   f_contradiction_loss k reg s == 0 <-> f_has_contradiction k reg s = false.
 Proof.
